@@ -196,6 +196,117 @@ func C08(c *fw.Ctx) {
 	frs = append(frs, model.KwPrint, model.KwIf, "বা", model.BiLen)
 	enumStrings(c, frs, charLen, func(s string) { charLevel(c, s) })
 
+	// sizes: one-line texts stretched by a filler whose length crosses every power of two from 2^8 to 2^17
+	// (2^k-1, 2^k, 2^k+1), the filler being blanks between two statements, a string literal, a trailing
+	// comment, an identifier, the digits of a number; an accepted and a rejected variant of each; through
+	// the parser alone, as a script, and as one line of the interactive prompt followed by another line
+	{
+		var sizes []int
+		for k := 8; k <= 17; k++ {
+			sizes = append(sizes, 1<<uint(k)-1, 1<<uint(k), 1<<uint(k)+1)
+		}
+		c.Bound("stretched_text_max_filler", sizes[len(sizes)-1])
+		type stretched struct {
+			tag    string
+			text   func(l int, ok bool) string
+			stdout func(l int) string // what the accepted variant prints
+		}
+		rep := strings.Repeat
+		forms := []stretched{
+			{"blanks", func(l int, ok bool) string {
+				tail := model.KwPrint + " 7;"
+				if !ok {
+					tail = model.KwPrint + " ;"
+				}
+				return model.KwPrint + " 424242;" + rep(" ", l) + tail
+			}, func(l int) string { return "424242\n7\n" }},
+			{"tabs", func(l int, ok bool) string {
+				tail := model.KwPrint + " 7;"
+				if !ok {
+					tail = ") " + model.KwPrint + " 7;"
+				}
+				return model.KwPrint + " 424242;" + rep("\t", l) + tail
+			}, func(l int) string { return "424242\n7\n" }},
+			{"string", func(l int, ok bool) string {
+				if !ok {
+					return model.KwPrint + " 424242; " + model.KwPrint + " \"" + rep("a", l) + "\" 1;"
+				}
+				return model.KwPrint + " 424242; " + model.KwPrint + " \"" + rep("a", l) + "\";"
+			}, func(l int) string { return "424242\n" + rep("a", l) + "\n" }},
+			{"bangla-string", func(l int, ok bool) string {
+				if !ok {
+					return model.KwPrint + " 424242; " + model.KwPrint + " \"" + rep("\u0995", l) + "\" 1;"
+				}
+				return model.KwPrint + " 424242; " + model.KwPrint + " \"" + rep("\u0995", l) + "\";"
+			}, func(l int) string { return "424242\n" + rep("\u0995", l) + "\n" }},
+			{"comment", func(l int, ok bool) string {
+				if !ok {
+					return model.KwPrint + " 424242; " + model.KwPrint + " ; //" + rep("x", l)
+				}
+				return model.KwPrint + " 424242; " + model.KwPrint + " 7; //" + rep("x", l)
+			}, func(l int) string { return "424242\n7\n" }},
+			{"identifier", func(l int, ok bool) string {
+				id := rep("a", l)
+				if !ok {
+					return model.KwPrint + " 424242; " + model.KwVar + " " + id + " = 7 " + model.KwPrint + " " + id + ";"
+				}
+				return model.KwPrint + " 424242; " + model.KwVar + " " + id + " = 7; " + model.KwPrint + " " + id + ";"
+			}, func(l int) string { return "424242\n7\n" }},
+			{"digits", func(l int, ok bool) string {
+				if !ok {
+					return model.KwPrint + " 424242; " + model.KwPrint + " " + rep("0", l) + "7 7;"
+				}
+				return model.KwPrint + " 424242; " + model.KwPrint + " " + rep("0", l) + "7;"
+			}, func(l int) string { return "424242\n7\n" }},
+		}
+		for _, f := range forms {
+			for _, l := range sizes {
+				for _, ok := range []bool{true, false} {
+					if !c.Mine() {
+						continue
+					}
+					src := f.text(l, ok)
+					sig := fmt.Sprintf("stretched|%s|accepted=%v", f.tag, ok)
+					frontEndVerdict(c, src, ok, 0, false, sig)
+					fuel := int64(400000 + 400*len(src))
+					expOut, expStatus := f.stdout(l), 0
+					if !ok {
+						expOut, expStatus = "", 65
+					}
+					// as a script
+					o := h.RunFile(src+"\n", h.Opts{Fuel: fuel})
+					c.Eval("file\x00"+src, true)
+					base := fw.Replay{Mode: "file", Program: src + "\n", CLI: true, InStdout: trunc(o.Stdout, 300), InStderr: trunc(o.Stderr, 300), InStatus: o.Status}
+					if !abnormal(c, o, "file", trunc(src, 200), base) {
+						if o.Stdout != expOut || o.Status != expStatus || (o.Stderr == "") != ok {
+							r := base
+							r.Sig = "C08|" + sig + "|script"
+							r.What = "a long text must be classified and run exactly like a short one"
+							r.Expected = fmt.Sprintf("stdout %q status %d, diagnostic: %v", trunc(expOut, 60), expStatus, !ok)
+							r.Observed = fmt.Sprintf("stdout %q status %d stderr %q", trunc(o.Stdout, 60), o.Status, trunc(o.Stderr, 120))
+							c.Violate(r)
+						}
+					}
+					// as a line of the prompt, followed by a second line
+					session := src + "\n" + model.KwPrint + " 3;\n"
+					o = h.RunRepl(session, h.Opts{Fuel: fuel})
+					c.Eval("repl\x00"+src, true)
+					base = fw.Replay{Mode: "repl", Program: session, CLI: true, InStdout: trunc(o.Stdout, 300), InStderr: trunc(o.Stderr, 300), InStatus: o.Status}
+					if !abnormal(c, o, "repl", trunc(src, 200), base) {
+						want := ">> " + expOut + ">> 3\n>> "
+						if o.Stdout != want || o.Status != 0 || (o.Stderr == "") != ok {
+							r := base
+							r.Sig = "C08|" + sig + "|prompt-line"
+							r.What = "a long line of the prompt must be classified and run as one text, exactly like a short one, and the next line must still be answered"
+							r.Expected = fmt.Sprintf("stdout %q status 0, diagnostic: %v", trunc(want, 80), !ok)
+							r.Observed = fmt.Sprintf("stdout %q status %d stderr %q", trunc(o.Stdout, 80), o.Status, trunc(o.Stderr, 120))
+							c.Violate(r)
+						}
+					}
+				}
+			}
+		}
+	}
 	// deep nesting: verdict known by construction
 	depths := []int{10, 100, 1000}
 	if !c.Quick() {
